@@ -24,7 +24,7 @@ class CodeGenModel:
         self.subexprs = []
         self.symbols = {}
         self.st = Obj('xcmp::SymbolTable', {'symbolMap': {}}, 'symtab')
-        self.frame = self.I.construct('xcmp::Frame', [('str', '_exit_label')])
+        self.frame = xmodel.make_frame(self.I, idx)
         self.frame.fields['offset'] = self.I.sym('F', 64, False, 1, 1 << 20)
         self.frame.fields['size'] = self.I.sym('S', 64, False, 1, 1 << 20)
         self.cb = self.I.construct('xcmp::CodeBuffer', [self.st])
@@ -762,6 +762,64 @@ def rule_call_registers(rep, idx, rid='R14'):
                     'actuals stored to sp[%s]; template %s' % (sorted(slots), [t for t, _ in M.instrs()][:24]))
 
 
+def rule_variable_slots(rep, idx, rid='R15'):
+    """X evaluates every actual / right-hand side with the values the variables had before the statement.  In a generated statement
+    template a store into the slot of a *named* variable (formal or local: frame offset = the symbol's stack offset) must therefore
+    not be followed by the code of a sub-expression that may read that variable."""
+    rep.rule(rid, 'statement templates keep the variables intact while the statement is evaluated: no store into the frame slot of a '
+             'formal or local is followed, inside the same statement template, by the evaluation of a sub-expression that mentions that '
+             'variable (return of a self-recursive call, of another call, assignments, call statements)', floor=6)
+    from .c07 import tree_vars
+    where = 'xcmp.hpp xcmp::CodeBuffer::StmtCodeGen'
+
+    def setup():
+        M = CodeGenModel(idx, 'A')
+        for n in ('n', 'acc', 'x'):
+            M.symbol(n, 'VAR', 'f')
+        f = M.symbol('f', 'FUNC', '')
+        M.symbol('g', 'FUNC', '')
+        M.symbol('p', 'PROC', '')
+        try:
+            formals = Vec([M.I.construct('xcmp::ValFormal', [None, ('str', 'n')]), M.I.construct('xcmp::ValFormal', [None, ('str', 'acc')])])
+            f.fields['node'] = M.I.construct('xcmp::Proc', [None, const(1, False, 1), ('str', 'f'), formals, Vec([]), M.I.construct('xcmp::SkipStatement', [None])])
+        except (AnalysisBroken, Thrown):
+            pass
+        return M
+    X0 = setup().X
+    shapes = [
+        ('return f(n - 1, acc + n)', lambda M: M.I.construct('xcmp::ReturnStatement', [None, M.X.call('f', [M.X.binop('MINUS', M.X.var('n'), M.X.num(1)), M.X.binop('PLUS', M.X.var('acc'), M.X.var('n'))])])),
+        ('return f(acc, n)', lambda M: M.I.construct('xcmp::ReturnStatement', [None, M.X.call('f', [M.X.var('acc'), M.X.var('n')])])),
+        ('return f(acc + n, n)', lambda M: M.I.construct('xcmp::ReturnStatement', [None, M.X.call('f', [M.X.binop('PLUS', M.X.var('acc'), M.X.var('n')), M.X.var('n')])])),
+        ('return g(n - 1, acc + n)', lambda M: M.I.construct('xcmp::ReturnStatement', [None, M.X.call('g', [M.X.binop('MINUS', M.X.var('n'), M.X.num(1)), M.X.binop('PLUS', M.X.var('acc'), M.X.var('n'))])])),
+        ('n := acc + n', lambda M: M.I.construct('xcmp::AssStatement', [None, M.X.var('n'), M.X.binop('PLUS', M.X.var('acc'), M.X.var('n'))])),
+        ('p(n - 1, acc + n)', lambda M: M.I.construct('xcmp::CallStatement', [None, M.X.call('p', [M.X.binop('MINUS', M.X.var('n'), M.X.num(1)), M.X.binop('PLUS', M.X.var('acc'), M.X.var('n'))])])),
+    ]
+    for name, mk in shapes:
+        M = setup()
+        try:
+            st = mk(M)
+            M.X.visit_post(M.stmt_visitor(), st)
+        except NeedSplit as e:
+            rep.undecided(rid, name, 'not uniform: %s' % e, where)
+            continue
+        except Thrown as e:
+            rep.add(rid, name, False, where, 'code generation fails: %s' % e.what)
+            continue
+        written = {}
+        bad = []
+        for tk, d in M.instrs():
+            if tk == 'STAI_FB':
+                aff = d.fields['offset'].aff if isinstance(d.fields.get('offset'), IV) else None
+                for k in (aff[0] if aff else {}):
+                    if k.startswith('OFF_'):
+                        written[k[4:]] = d
+            elif tk == 'EXPR':
+                used = tree_vars(M.X, d.fields['expr'], set()) if isinstance(d.fields.get('expr'), Obj) else set()
+                for v in sorted(used & set(written)):
+                    bad.append('the slot of %s is overwritten before %s is evaluated, which then sees the new value' % (v, M.X.show(d.fields['expr'])))
+        rep.add(rid, name, not bad, where, '; '.join(bad) if bad else 'template %s' % [t for t, _ in M.instrs()][:20])
+
+
 # --------------------------------------------------------------------------------------------------
 # R4 label namespace, R6 strings
 # --------------------------------------------------------------------------------------------------
@@ -845,6 +903,7 @@ def run(rep, tier):
     rule_strings(rep, idx)
     rule_templates(rep, idx)
     rule_call_registers(rep, idx)
+    rule_variable_slots(rep, idx)
     # the expression optimiser preserves the X meaning (import of C07's rewrite-identity and fold rules)
     from . import c07
     c07.rule_rewrite(_Rename(rep, {'R2': 'R9'}), idx)
